@@ -574,6 +574,34 @@ func oracleReturns(sc *jScenario, tr *jTrace) (out []jv) {
 			}
 		}
 	}
+	// "Shutdown returns nil once all subscribers are released": a subscriber that is registered and
+	// ends only through the shutdown is parked in Subscribe and woken when Joe releases it; it must
+	// not return later, in virtual time, than the Shutdown call that returned nil.
+	// Judged only under schedules that cannot delay the Subscribe goroutine itself at one of its own
+	// yield points (no random / n-th-invocation delays, no fixed delay at a "sub." point).
+	subUndelayed := (sc.Hook.Kind == "none" || sc.Hook.Kind == "fixed") && len(sc.Hook.Nth) == 0
+	for pt := range sc.Hook.Fixed {
+		if strings.HasPrefix(pt, "sub.") {
+			subUndelayed = false
+		}
+	}
+	for _, sd := range tr.Shutdowns {
+		if !sd.Returned || sd.Ret != nil || !subUndelayed {
+			continue
+		}
+		for _, st := range tr.Subs {
+			reg, hasReg := v.Regs[st.Spec.Name]
+			if !st.Returned || st.Ret != nil || st.CancelStamp.Load() != 0 || clientFailure(st.Calls) >= 0 || !hasReg || reg.Err != nil {
+				continue
+			}
+			if st.CallStamp > sd.CallStamp {
+				continue
+			}
+			if st.VRet > sd.VRet {
+				out = append(out, jvf([]string{"shutdown_returned_before_subscribers_released"}, "Shutdown returned nil at virtual %v but subscriber %s (registered, not cancelled) was only released at %v", sd.VRet, st.Spec.Name, st.VRet))
+			}
+		}
+	}
 	closedAllowed := func(ret int64) bool { return v.firstSDCall > 0 && v.firstSDCall < ret }
 	closedRequired := func(call int64) bool { return nilRet > 0 && call > nilRet }
 	for _, st := range tr.Subs {
